@@ -1,4 +1,70 @@
 #![allow(dead_code)]
+/// Heap use of one call, for "memory proportional to the datagram size" (C01): a counting wrapper around the system
+/// allocator; counts only on the thread that armed it, for the duration of `measure`.
+pub mod memcount {
+    use std::alloc::{GlobalAlloc, Layout, System};
+    use std::cell::Cell;
+    thread_local! {
+        static ARMED: Cell<bool> = const { Cell::new(false) };
+        static CUR: Cell<isize> = const { Cell::new(0) };
+        static PEAK: Cell<isize> = const { Cell::new(0) };
+    }
+    pub struct Counting;
+    fn note(d: isize) {
+        let _ = ARMED.try_with(|a| {
+            if a.get() {
+                let _ = CUR.try_with(|c| {
+                    let v = c.get() + d;
+                    c.set(v);
+                    let _ = PEAK.try_with(|p| {
+                        if v > p.get() {
+                            p.set(v)
+                        }
+                    });
+                });
+            }
+        });
+    }
+    unsafe impl GlobalAlloc for Counting {
+        unsafe fn alloc(&self, l: Layout) -> *mut u8 {
+            let p = System.alloc(l);
+            if !p.is_null() {
+                note(l.size() as isize);
+            }
+            p
+        }
+        unsafe fn alloc_zeroed(&self, l: Layout) -> *mut u8 {
+            let p = System.alloc_zeroed(l);
+            if !p.is_null() {
+                note(l.size() as isize);
+            }
+            p
+        }
+        unsafe fn dealloc(&self, p: *mut u8, l: Layout) {
+            System.dealloc(p, l);
+            note(-(l.size() as isize));
+        }
+        unsafe fn realloc(&self, p: *mut u8, l: Layout, new_size: usize) -> *mut u8 {
+            let q = System.realloc(p, l, new_size);
+            if !q.is_null() {
+                note(new_size as isize - l.size() as isize);
+            }
+            q
+        }
+    }
+    /// Runs `f`; returns its result and the peak of (bytes allocated - bytes freed) by this thread during the call.
+    pub fn measure<T>(f: impl FnOnce() -> T) -> (T, u64) {
+        CUR.with(|c| c.set(0));
+        PEAK.with(|p| p.set(0));
+        ARMED.with(|a| a.set(true));
+        let r = f();
+        ARMED.with(|a| a.set(false));
+        (r, PEAK.with(|p| p.get()).max(0) as u64)
+    }
+}
+#[global_allocator]
+static ALLOC: memcount::Counting = memcount::Counting;
+
 mod browse;
 mod cache;
 mod compare;
